@@ -67,12 +67,24 @@ def run(g, cfg, pid, tier, seed, work, problems):
         bad = [l for l in lines if "PANIC" in l.split("\t")[2:]]
         for l in bad[:5]:
             oracle.append(("panic-in-configuration", "config [%s]: %s" % (c, l[:300])))
+    # an optional integration type and the core type it stands for give the same result (bytes,
+    # verdict, consumption, also under the limiters); storage bits beyond a bit vector's length
+    # do not reach the wire
+    for c, lines in digests.items():
+        nbad = 0
+        for l in lines:
+            p = l.split("\t")
+            if len(p) >= 6 and p[1] == "integ":
+                compared += 1
+                if p[4] != p[5] and nbad < 5:
+                    nbad += 1
+                    oracle.append(("optional-integration-disagrees-with-core-type", "config [%s]: %s" % (c, l[:400])))
     with open(os.path.join(work, "oracle.tsv"), "w") as f:
         for c, d in oracle:
             f.write("%s\t%s\n" % (c, d.replace("\n", " ")))
     n = counts.get("opt", 0)
     stats = dict(evaluations=n, distinct_nontrivial=max(0, n - 1), duplicates_dropped=0, oracle_checks=compared,
-                 rule="deterministic corpus (per-type PRNG seeded by type name): for every registry type a few seeded values (encode bytes) and for each its encoding plus three mutations (decode outcome, consumed bytes, re-encoding, decode_all verdict); one digest line per case, plus one per case for the std-only paths (encode through an io::Write sink that short-writes and reports Interrupted, decode through IoReader over a reader that short-reads and reports Interrupted; without std the same lines come from the core paths); the digests of five feature configurations are compared line by line with the default configuration; the cases of the no_std build are also checked against the model. non-trivial = every case (all are distinct (type, input) pairs)",
+                 rule="deterministic corpus (per-type PRNG seeded by type name): for every registry type a few seeded values (encode bytes) and for each its encoding plus three mutations (decode outcome, consumed bytes, re-encoding, decode_all verdict); one digest line per case, plus one per case for the std-only paths (encode through an io::Write sink that short-writes and reports Interrupted, decode through IoReader over a reader that short-reads and reports Interrupted; without std the same lines come from the core paths); the digests of five feature configurations are compared line by line with the default configuration; the cases of the no_std build are also checked against the model; in the configurations with the optional integrations, GenericArray<T,N> against [T;N] (7 element types: same bytes, and the same verdict/consumption/value on each encoding and three mutations, plain and under depth limits 0..3 and memory limits 0,1,4,16,64,max) and bit vectors of 8 store/order combinations cut down from an all-ones store (13 lengths; same bytes as the clean vector, as BitVec and BitBox). non-trivial = every case (all are distinct (type, input) pairs)",
                  distribution={("cases[%s]" % NAMES[c]): counts.get(c, 0) for c in CONFIGS},
                  samples=[l[:200] for l in (ref or [])[:6]])
     json.dump(stats, open(os.path.join(work, "stats.json"), "w"))
